@@ -7,26 +7,7 @@ HOOK_COMMITS = subprocess.run(
 
 ALL = ["C%02d" % i for i in range(1, 21)]
 
-# id -> (category, text, level_note, design_ref, technique)
-CLAIMS = {
- "C20": ("proof",
-   "Every obligation generated from itf8.Len/Encode/Decode and ltf8.Len/Encode/Decode (postconditions against spec functions written from CRAM 2.3, bounds, frame) plus the round-trip lemmas is discharged for all 2^32 / 2^64 values and all buffers; no loop, no bound.",
-   "Trusted: the hvc VC generator, go/ssa, the SMT solvers; math/bits.LeadingZeros8 by an assumed contract. The cram errorReader wrappers (itf8/ltf8/itf8slice over io.Reader) are not under contract.",
-   "DESIGN.md section 4 C20",
-   "contract-based deductive verification: weakest-precondition VCs over go/ssa in 64-bit bit-vector arithmetic, discharged by z3/cvc5"),
-}
-
- "C16": ("proof",
-   "Bin arithmetic of the BAI scheme (internal.BinFor, OverlappingBinsFor) and of every CSI geometry (csi.reg2bin, reg2bins with symbolic minShift/depth) is proved against a semantic specification (bin = deepest bin whose span contains the interval; list = exactly the bins whose span meets it), with the overlap=>membership lemma; all obligations (postconditions, loop invariants, termination, bounds, frames) are discharged for all inputs.",
-   "Not yet under contract (so a change confined to them is NOT detected by this check): sam.Record.End/Len/Bin, sam.Cigar.Lengths/IsValid, CigarOpType.Consumes. Trusted: hvc VC generator, go/ssa, SMT solvers. Ghost sets/witness maps are specification-only state.",
-   "DESIGN.md section 4 C16",
-   "contract-based deductive verification: loop invariants with ghost element sets over go/ssa, 64-bit bit-vector VCs, z3/cvc5"),
- "C17": ("proof",
-   "identity, squash, adjacent and the CompressorStrategy closure are proved for chunk lists of every length: output sorted and well-formed, every input chunk contained in an output chunk (ghost witness), adjacent covers no position outside the input (entry-state predicate inOld), neighbours separated (adjacent) or further apart than the threshold (compressor), squash is the single enclosing chunk, already-separated input is returned unchanged (idempotence), termination, in-place frame.",
-   "Precondition assumed at the strategies: input sorted by begin offset and File offsets < 2^47, near in [0,2^62]. The call sites in internal.Index.MergeChunks / csi MergeChunks are not under contract. Trusted: hvc VC generator, go/ssa, SMT solvers.",
-   "DESIGN.md section 4 C17",
-   "contract-based deductive verification: quantified loop invariants with ghost witnesses over go/ssa, mathematical integers with no-overflow obligations, z3/cvc5"),
-}
+CLAIMS = json.load(open("/verif/tools/claims.json"))
 
 NOT_APPLICABLE = {
  "C09": "liveness of calls blocking on other goroutines and goroutine leaks: not expressible as per-function contracts (DESIGN.md section 6)",
@@ -40,7 +21,8 @@ def main():
     for pid in ALL:
         if pid not in CLAIMS:
             continue
-        cat, text, note, ref, tech = CLAIMS[pid]
+        c = CLAIMS[pid]
+        cat, text, note, ref, tech = c["category"], c["text"], c["note"], c["ref"], c["technique"]
         checks.append({
             "property_id": pid,
             "quick_cmd": "/verif/bin/hvc check %s --tier quick" % pid,
